@@ -274,7 +274,7 @@ func (d *Driver) RunScript(sc tf.Script) {
 			}
 		}
 		s.r.EndBlock()
-		s.r.BeginBlockAfter(unit)
+		s.r.BeginBlockAfter(3 * unit) // the trace starts a second and a half later: requests are later than the activations even in whole seconds
 	}
 	d.W.Reset(sc.C, s.project(), sc.Steps)
 	d.St.Traces++
